@@ -51,6 +51,7 @@ def caller(tag, label, var):
     return ('on:\n  push:\n  issues:\n    types: [nonexistent%s]\npermissions:\n  bogus%s: read\njobs:\n'
             '  call:\n    uses: ./.github/workflows/callee.yml\n    with:\n      num: notanumber\n      extra%s: 1\n'
             '  build:\n    needs: [call]\n    runs-on: %s\n    steps:\n      - uses: ./.github/actions/act\n        with:\n          wrong%s: 1\n'
+            '      - uses: Actions/Checkout@v4\n        with:\n          nosuchinput: 1\n      - uses: actions/checkout@v4\n        with:\n          nosuchinput: 1\n'
             '      - run: echo ${{ vars.%s }} ${{ undefined%s }}\n      - run: echo ${{ needs.call.outputs.out1 }} ${{ needs.call.outputs.out2 }} ${{ needs.call.outputs.out3 }} ${{ needs.call.outputs.out4 }}\n'
             % (tag, tag, tag, label, tag, var, tag))
 
